@@ -114,6 +114,10 @@ def run_wf(case, Regex, MisformedRegexError, failures):
     syms = sorted(ref_regex.symbols_of(ast) | ref_regex.symbols_of(ast2))
     alphabet = syms[:4] + [FOREIGN]
     words = words_upto(alphabet, 3)
+    # self-test of the reference: Thompson NFA vs structural recursion on the AST
+    if R.words_upto(3) != ref_regex.language_upto(ast, 3):
+        from vlib.common import HarnessError
+        raise HarnessError("reference regex semantics disagree on %r" % (ast,))
     r = r2 = None
     with guard(failures, "parse"):
         r = Regex(case["text"])
